@@ -344,6 +344,7 @@ type appState struct {
 	v2      bool
 	snap    Snap
 	appends int
+	hist    map[int]bool // series that got an accepted histogram sample through this appender
 }
 
 // random transactions: 1-3 appenders (interleaved), 1-12 appends each, 1-3 series
@@ -472,10 +473,25 @@ func genRandom(dir string, r *gen.Rand, boundary bool) (Cfg, *runner) {
 				v = Val{Kind: 0, Bits: staleBits}
 			}
 			flag := a.v2 && r.Chance(1, 5)
+			if a.hist[sid] { // the series got a histogram through this appender: markers are converted at append
+				if r.Chance(1, 4) {
+					v = Val{Kind: 0, Bits: staleBits}
+					if ow > 0 && r.Chance(2, 3) && hm > math.MinInt64+ow { // below the series, inside the window
+						t = clampAdd(hm-ow, r.Range(0, ow%1000))
+					}
+				}
+				flag = a.v2 && r.Chance(1, 2)
+			}
 			ob := run.Do(Op{Op: OpApp, A: a.id, Flag: flag, Sid: sid, T: t, V: &v})
 			a.snap = ob.Snap
 			a.appends++
 			budget--
+			if ob.Err == EOK && v.Kind != 0 {
+				if a.hist == nil {
+					a.hist = map[int]bool{}
+				}
+				a.hist[sid] = true
+			}
 			if !has || t >= lt {
 				lastT[sid], lastV[sid] = t, v
 			}
@@ -535,6 +551,23 @@ func genTable(dir string, lastKind int, headAhead int64, oooWin int64, full bool
 					run.Do(Op{Op: OpRollback, A: a})
 					a++
 				}
+			}
+		}
+	}
+	// float staleness markers converted at append: the appender first takes a sample of the
+	// series' kind above everything (typesInBatch records the histogram type), then the marker
+	if lastKind != 0 {
+		for _, t := range grid {
+			for mode := 0; mode < 4; mode++ {
+				v2 := mode >= 2
+				run.Do(Op{Op: OpNew, A: a, V2: v2})
+				if mode == 1 {
+					run.Do(Op{Op: OpSetOpt, A: a, Flag: true})
+				}
+				run.Do(Op{Op: OpApp, A: a, Flag: mode == 3, Sid: 1, T: hm + 1, V: mk(lastKind, 2)})
+				run.Do(Op{Op: OpApp, A: a, Flag: mode == 3, Sid: 1, T: t, V: &Val{Kind: 0, Bits: staleBits}})
+				run.Do(Op{Op: OpRollback, A: a})
+				a++
 			}
 		}
 	}
